@@ -8,11 +8,12 @@ SPEC = dict(
               "encode_length", "decode_total", "C09_prop_of_model_encode", "C09_prop_of_model_decode",
               "C09_roundtrip_impl_partial"],
     gen=[codec_trivial.gen, mem_repr.gen],
-    steps=[dict(bin="sv_c09", area="c09", n_quick=700, n_thorough=7000, corpus="corpus/c09.txt",
+    steps=[dict(bin="sv_c09", area="c09", n_quick=1500, n_thorough=8000, corpus="corpus/c09.txt",
                 args=["--mode", "c09", "--per-pkg", "240"], timeout=3000,
                 dist_keys=("kind", "class", "depth", "len", "triv", "abi", "valid"),
                 nontrivial=lambda case, impl, kv: kv.get("depth", "0") != "0")],
-    rule="random type trees (depth <= 4, width <= 5; generated struct/enum declarations, Option/Result, Vec/Bytes/"
+    rule="FIRST, on every run, a systematic enumeration of ~420 small type shapes (leaves: sub-word / word / multi-word ints, unit, [u8;N] N in {1,3,7,8,9,12,16,33}, [bool;5], str[N]; every depth-1 aggregate kind over them: structs/tuples with 1-3 fields (each leaf first/middle/last), enums with 1-3 variants (all-equal payloads, a unit variant on either side, mixed sizes), arrays of 0-3, Vec, Option; a depth-2 layer wrapping every third shape in a 1-field struct / struct with a u8 neighbour / array of 2 / Vec / enum variant), one value + canonical decode each; THEN "
+         "random type trees (depth <= 4, width <= 5; generated struct/enum declarations, Option/Result, Vec/Bytes/"
          "String/str/raw_slice, str[N], zero-sized types) with boundary-biased values, 2 values per type; each value is "
          "a Sway #[test] compiled by the real compiler and run on the real FuelVM: log(v) (fast path when the type is "
          "trivial), encode_configurable(v) (plain abi_encode) and abi_decode::<T>(canonical bytes [+ trailing bytes]) "
